@@ -231,9 +231,9 @@ def build_win(config="asan"):
     cfg = CONFIGS[config]
     bdir = os.path.join(BUILD, config + "-win")
     os.makedirs(bdir, exist_ok=True)
-    srcs = [os.path.join(REPO, "reproc/src", f) for f in ("process.windows.c", "utf.windows.c", "handle.windows.c")]
+    srcs = [os.path.join(REPO, "reproc/src", f) for f in ("process.windows.c", "utf.windows.c", "handle.windows.c", "redirect.windows.c")]
     harness = [os.path.join(SRC, "win.c"), os.path.join(SRC, "wrap.c"), os.path.join(SRC, "wrap.h"),
-               os.path.join(VERIF, "stubs", "windows.h")]
+               os.path.join(VERIF, "stubs", "windows.h"), os.path.join(VERIF, "stubs", "io.h")]
     flags = cfg["cflags"]
     out = os.path.join(bdir, "win")
     digest = _hash(srcs + lib_headers() + harness, " ".join(flags))
